@@ -14,8 +14,8 @@ Driver for C32.  Line protocol (see harness/cmd/c32/main.go):
   gob     <hex>                                              -> number of strict prefixes of the gob that decode (claim: 0)
   tkill   ...                                                -> what the theorems say about a same-tree recovery
 
-mode x|f (stamps as xattrs | fallback records), cache c|n, pb p|- (post-build function: metadata is loaded when up to
-date), kinds: one letter per output (f file, d directory), pre: none | old:<mask> | cur | old-rmout0 | cur-rmout0 |
+mode x|f (stamps as xattrs | fallback records), cache c|n, pb p|-|g|b (p: post-build function, metadata is loaded when
+up to date; g: declared hashes that both trees pass; b: declared hashes that only T0 passes — a build of T1 fails), kinds: one letter per output (f file, d directory), pre: none | old:<mask> | cur | old-rmout0 | cur-rmout0 |
 cur-rmmd, (k, j): k hook points completed and j atomic steps inside the next one, next: same | revert.
 -/
 open PlzVerif PlzVerif.Proto PlzVerif.CrashBuild
@@ -27,6 +27,7 @@ structure Scn where
   fb : Bool
   cache : Bool
   pb : Bool
+  hs : String      -- declared hashes: "-" none, "g" both trees verify, "b" only T0 verifies (a build of T1 fails "Bad output hash")
   kinds : List Char
   pre : String
   mask : List Bool
@@ -41,7 +42,7 @@ def s1 : Nat := 200
 
 def parseScn (mode cache pb kinds pre : String) : Option Scn :=
   let ks := kinds.toList
-  if !(mode = "x" || mode = "f") || !(cache = "c" || cache = "n") || !(pb = "p" || pb = "-") then none
+  if !(mode = "x" || mode = "f") || !(cache = "c" || cache = "n") || !(pb = "p" || pb = "-" || pb = "g" || pb = "b") then none
   else if ks.isEmpty || !ks.all (fun c => c = 'f' || c = 'd' || c = 's') then none
   else
     let mask? : Option (List Bool) :=
@@ -49,7 +50,7 @@ def parseScn (mode cache pb kinds pre : String) : Option Scn :=
       | ["old", m] => if m.length = ks.length && m.toList.all (fun c => c = '0' || c = '1') then some (m.toList.map (· = '1')) else none
       | [p] => if ["none", "cur", "old-rmout0", "cur-rmout0", "cur-rmmd"].contains p then some (ks.map fun _ => true) else none
       | _ => none
-    mask?.map fun m => { fb := mode = "f", cache := cache = "c", pb := pb = "p", kinds := ks, pre := (pre.splitOn ":").headD "", mask := m }
+    mask?.map fun m => { fb := mode = "f", cache := cache = "c", pb := pb = "p", hs := (if pb = "g" || pb = "b" then pb else "-"), kinds := ks, pre := (pre.splitOn ":").headD "", mask := m }
 
 /-- the parameters of a build of tree T1 (`cur = true`) or T0 -/
 def params (s : Scn) (cur : Bool) : P :=
@@ -112,10 +113,29 @@ def macros (forced : Bool) (b : P) (fs : T) : List Macro :=
   [⟨"run-command", b.outs.map fun i => .out i (.run (b.new i))⟩] ++
   Generated.C32.buildPhases.flatMap (phaseMacros b fs) ++ [⟨"finish", [.finish]⟩]
 
+/-- is the record written before the declared hashes are verified? (regenerated from calculateAndCheckRuleHash) -/
+def stampFirst : Bool :=
+  Generated.C32.verifyThenStamp.idxOf "writeRuleHash" < Generated.C32.verifyThenStamp.idxOf "checkRuleHashes"
+
+/-- does a build of this tree pass the verification of the declared hashes? -/
+def verifies (s : Scn) (cur : Bool) : Bool := !(s.hs = "b" && cur)
+
+/-- hook points of a build step that fails the verification of its declared hashes -/
+def macrosFail (forced : Bool) (b : P) (fs : T) : List Macro :=
+  [⟨"prepare", [.prepTmp]⟩] ++ (if forced || b.readsMd then [] else [⟨"cache-retrieve", []⟩]) ++
+  [⟨"run-command", b.outs.map fun i => .out i (.run (b.new i))⟩] ++
+  (Generated.C32.buildPhases.takeWhile (· != "stamp")).flatMap (phaseMacros b fs) ++
+  (if stampFirst then phaseMacros b fs "stamp" else []) ++
+  [⟨"fail-remove-outputs", failOps b⟩]
+
+def macrosFor (verif forced : Bool) (b : P) (fs : T) : List Macro :=
+  if verif then macros forced b fs else macrosFail forced b fs
+
 /-- the grouping into hook points must be exactly the operation list the theorems are about -/
 def macrosConsistent (b : P) (fs : T) : Bool :=
   (macros false b fs).flatMap (·.ops) == planWith Generated.C32.buildPhases b fs &&
-  (macros true b fs).flatMap (·.ops) == planWith Generated.C32.buildPhases b fs
+  (macros true b fs).flatMap (·.ops) == planWith Generated.C32.buildPhases b fs &&
+  (macrosFail false b fs).flatMap (·.ops) == planFailWith Generated.C32.buildPhases stampFirst b fs
 
 def showMd (m : Option (List UInt8)) : String :=
   match m with
@@ -144,7 +164,14 @@ def outputsClean (b : P) (fs : T) : Bool :=
   b.outs.all fun i => match (fs.out i).gen with | some nd => nd.content == b.new i | none => false
 
 /-- what the next plain build of the tree described by `b` does from state `fs` -/
-def showNext (b : P) (fs : T) : String :=
+def showNext (verif : Bool) (b : P) (fs : T) : String :=
+  if !verif then
+    -- a clean build of this tree FAILS the verification of its declared hashes and leaves no output: so must this one
+    (if needsBuilding b fs then
+      let t := applyOps fs (planFailWith Generated.C32.buildPhases stampFirst b fs)
+      "next=fail-verify final=" ++ (if b.outs.all (fun i => (t.out i).gen.isNone) then "missing" else "left")
+     else "next=skip final=unverified")
+  else
   let r := buildFSWith Generated.C32.buildPhases b false fs
   let fin := fun (t : T) => if outputsClean b t then "clean" else "stale"
   if r.2 then
@@ -158,8 +185,8 @@ def innerAllowed (name : String) : Bool :=
   ["md-write", "out-remove", "stamp-out", "stamp-md"].contains ((name.splitOn ":").headD "")
 
 /-- the files after the build step of T1, started in `fs`, was killed just before hook point `k` plus `j` inner steps -/
-def cutAt (forced : Bool) (b : P) (fs : T) (k j : Nat) : Option T :=
-  let ms := macros forced b fs
+def cutAt (verif forced : Bool) (b : P) (fs : T) (k j : Nat) : Option T :=
+  let ms := macrosFor verif forced b fs
   if k > ms.length then none else
   match ms[k]? with
   | some m =>
@@ -171,11 +198,11 @@ def stepCrash (s : Scn) (k j : Nat) (next : String) : String :=
   let b := params s true
   let fs := preState s
   if !macrosConsistent b fs then "plan-mismatch" else
-  match cutAt (s.pre = "cur") b fs k j with
+  match cutAt (verifies s true) (s.pre = "cur") b fs k j with
   | none => "bad-op"
   | some crash =>
     let bn := params s (next = "same")
-    showState s crash ++ " | " ++ showNext bn crash
+    showState s crash ++ " | " ++ showNext (verifies s (next = "same")) bn crash
 
 /-- a second, plain `plz build` of T1 on what the first kill left, itself killed at (k2, j2); a run that finds the
     target up to date has no hook points and ends by itself (failing, and removing the outputs, when the metadata does
@@ -184,21 +211,22 @@ def stepCrash2 (s : Scn) (k1 j1 k2 j2 : Nat) (next : String) : String :=
   let b := params s true
   let fs := preState s
   if !macrosConsistent b fs then "plan-mismatch" else
-  match cutAt (s.pre = "cur") b fs k1 j1 with
+  match cutAt (verifies s true) (s.pre = "cur") b fs k1 j1 with
   | none => "bad-op"
   | some c1 =>
     if !macrosConsistent b c1 then "plan-mismatch" else
     let second : Option T :=
       if needsBuilding b c1 then
-        (if k2 ≥ (macros false b c1).length then (if j2 > 0 then none else some (applyOps c1 ((macros false b c1).flatMap (·.ops))))
-         else cutAt false b c1 k2 j2)
+        (if k2 ≥ (macrosFor (verifies s true) false b c1).length then
+           (if j2 > 0 then none else some (applyOps c1 ((macrosFor (verifies s true) false b c1).flatMap (·.ops))))
+         else cutAt (verifies s true) false b c1 k2 j2)
       else if j2 > 0 then none
       else if mdFails b c1 then some (removeOutputs b c1) else some c1
     match second with
     | none => "bad-op"
     | some c2 =>
       let bn := params s (next = "same")
-      showState s c2 ++ " | " ++ showNext bn c2
+      showState s c2 ++ " | " ++ showNext (verifies s (next = "same")) bn c2
 
 def parseNat? (s : String) : Option Nat := s.toNat?
 
@@ -247,7 +275,7 @@ def step (line : String) : String :=
     | some s =>
       let b := params s true
       let fs := preState s
-      if !macrosConsistent b fs then "plan-mismatch" else ",".intercalate ((macros (s.pre = "cur") b fs).map (·.name))
+      if !macrosConsistent b fs then "plan-mismatch" else ",".intercalate ((macrosFor (verifies s true) (s.pre = "cur") b fs).map (·.name))
     | none => "bad-op"
   | ["crash", mode, cache, pb, kinds, pre, k, j, next] =>
     match parseScn mode cache pb kinds pre, parseNat? k, parseNat? j with
@@ -264,7 +292,7 @@ def step (line : String) : String :=
       if len ≥ 100 then "bad-op" else
       let fs := complete s true
       let fs' : T := { fs with out := fun i => if i = 0 then { fs.out 0 with fb := some (.trunc len) } else fs.out i }
-      showNext (params s true) fs'
+      showNext true (params s true) fs'
     | _, _ => "bad-op"
   | ["wf", old, new, mode, chunk, n, how] =>
     match optHex old, optHex new, parseNat? mode, parseNat? chunk, parseNat? n with
